@@ -607,6 +607,16 @@ class CallsMixin:
             if fmt.k == "gamma":
                 return gamma(fmt.a[0], self.call_builtin(name, [fmt.a[1]] + args[1:], kw, env, node),
                              self.call_builtin(name, [fmt.a[2]] + args[1:], kw, env, node))
+            if fmt.k == "const" and isinstance(fmt.a[0], str) and len(args) > 2:
+                # several fields in one format: the concatenation of the single-field packings (big-endian / no alignment)
+                parts = _split_struct_format(fmt.a[0])
+                if parts is None or len(parts) != len(args) - 1:
+                    self.unsupported("struct.pack with an unsupported multi-field format", node)
+                out = bcat()
+                from .terms import bcat_concat
+                for f_, v_ in zip(parts, args[1:]):
+                    out = bcat_concat(out, self.call_builtin(name, [C(f_), v_], kw, env, node))
+                return out
             if fmt.k != "const" or len(args) != 2:
                 self.unsupported("struct.pack with non-constant or multi-field format", node)
             if not self.quiet:
@@ -632,7 +642,26 @@ class CallsMixin:
                 self.unsupported("struct.unpack with non-constant format", node)
             n = struct.calcsize(fmt.a[0])
             self.log_read("unpack", buf, C(0), C(n), env, node, extra=fmt.a[0])
+            parts = _split_struct_format(fmt.a[0])
+            if parts is not None and len(parts) > 1:
+                # several fields: each is the single-field decoding of its own sub-slice (the exact-length requirement of
+                # the whole call has been logged above)
+                vals, off = [], 0
+                for f_ in parts:
+                    w_ = struct.calcsize(f_)
+                    vals.append(T("unpacked", f_, T("slice", buf, C(off), C(off + w_), ty="bytes"), ty="int"))
+                    off += w_
+                return T("tuple", tuple(vals))
             return T("tuple", (T("unpacked", fmt.a[0], buf, ty="int"),))
+        if name == "struct.unpack_from":
+            # unpack_from(fmt, buffer, offset=0): reads exactly calcsize(fmt) octets at offset, the buffer may be longer
+            fmt, buf = args[0], args[1]
+            off = args[2] if len(args) > 2 else kw.get("offset", C(0))
+            if fmt.k != "const" or not isinstance(fmt.a[0], str):
+                self.unsupported("struct.unpack_from with non-constant format", node)
+            n = struct.calcsize(fmt.a[0])
+            sl = self.do_slice(buf, off, binop("+", off, C(n)), env, node) if hasattr(self, "do_slice") else T("slice", buf, off, binop("+", off, C(n)), ty="bytes")
+            return self.call_builtin("struct.unpack", [fmt, sl], {}, env, node)
         if name == "struct.calcsize" and args[0].k == "const":
             return C(struct.calcsize(args[0].a[0]))
         if name == "isinstance":
@@ -755,3 +784,20 @@ class CallsMixin:
         if x.k == "gamma":
             return gamma(x.a[0], self.do_copy(x.a[1], env, node, deep), self.do_copy(x.a[2], env, node, deep))
         return x
+
+
+def _split_struct_format(fmt):
+    """'!BBHh' -> ['!B', '!B', '!H', '!h'] for network/big-endian formats without repeat counts of strings;
+    None if the format is not of that simple kind"""
+    if not fmt or fmt[0] not in "!>":
+        return None
+    out, num = [], ""
+    for ch in fmt[1:]:
+        if ch.isdigit():
+            num += ch
+            continue
+        if ch not in "bBhHiIlLqQ":
+            return None
+        out += [fmt[0] + ch] * (int(num) if num else 1)
+        num = ""
+    return out if not num else None
